@@ -1,8 +1,8 @@
 ------------------------------ MODULE Trace_Parse ------------------------------
 (***************************************************************************)
 (* C01, code -> spec direction: arbitrary strings (valid derivations with  *)
-(* random token edits) are given to formula(); the harness lexes each      *)
-(* string by maximal munch and this specification decides, from the tokens *)
+(* random character edits) are given to formula(); this specification      *)
+(* reads the characters of each string (PTLex) and decides, from the tokens *)
 (* and the table shape, whether the string is a compound of the documented *)
 (* grammar naming only defined symbols / isotopes / charges, and what it   *)
 (* denotes.  In the grammar => the code must return exactly that           *)
@@ -14,6 +14,7 @@ EXTENDS Json, IOUtils, TLCExt, Sequences, Integers, TLC, Dec, FiniteSets
 Log == ndJsonDeserialize(IOEnv.TRACE_FILE)
 Hdr == Log[1]
 P == INSTANCE PTParse WITH SymZ <- Hdr.symz
+L == INSTANCE PTLex
 VARIABLE l
 ToSet(s) == {s[i] : i \in DOMAIN s}
 ValidAtom(z, a, q) == /\ (a = 0 \/ a \in ToSet(Hdr.isos[ToString(z)]))
@@ -32,14 +33,17 @@ Denotes(r, res) ==
           [] r.dens.kind = "i" -> res.density.k = "num" /\ Close(res.density.v, r.dens.v, -13)
           [] r.dens.kind = "n" -> res.natural_density.k = "num" /\ Close(res.natural_density.v, r.dens.v, -11)
 Clause(e) ==
-  LET strict == IF NoBad(e.toks) THEN P!ParseTagged(e.toks) ELSE [ok |-> FALSE, items |-> <<>>, dens |-> [t |-> "none"]]
-      loose == IF NoBad(e.toks) THEN P!ParseTagged(P!Loose(e.toks, 1)) ELSE strict
+  LET toks == L!Lex(e.chars)
+      strict == IF NoBad(toks) THEN P!ParseTagged(toks) ELSE [ok |-> FALSE, items |-> <<>>, dens |-> [t |-> "none"]]
+      loose == IF NoBad(toks) THEN P!ParseTagged(P!Loose(toks, 1)) ELSE strict
       raised == "exc" \in DOMAIN e.res
   IN IF strict.ok /\ Defined(strict.items)
      THEN (IF raised THEN "GrammarStringMustParse" ELSE IF Denotes(strict, e.res) THEN "ok" ELSE "ParsedIsDenotation")
      ELSE IF loose.ok /\ Defined(loose.items)
      THEN (IF raised \/ Denotes(loose, e.res) THEN "ok" ELSE "ParsedIsDenotation(loose)")
-     ELSE IF raised THEN "ok" ELSE "OutsideGrammarMustBeRejected"
+     ELSE IF ~raised THEN "OutsideGrammarMustBeRejected"
+     ELSE IF "again" \in DOMAIN e /\ e.again = "accepted" THEN "OutsideGrammarMustBeRejectedEveryTime"
+     ELSE "ok"
 Init == l = 2
 Next == /\ l <= Len(Log)
         /\ LET c == Clause(Log[l]) IN (c # "ok" => PrintT("@@" \o ToJson([id |-> Log[l].id, clause |-> c])))
